@@ -150,11 +150,19 @@ class Gen:
         self.features.add("||")
         return C("EOr", a, b), f"{sa} || {sb}"
 
-    def str_lit(self, sc):
+    def str_lit(self, sc, no_strs=False):
         pieces, src = [], ""
         for _ in range(self.rng.randint(1, 3)):
-            names = sc.of_type(lambda t: t in ("num", "str", "bool"))
-            if names and self.rng.random() < 0.4:
+            names = sc.of_type(lambda t: t in (("num", "bool") if no_strs else ("num", "str", "bool")))
+            r = self.rng.random()
+            hidden = [n for n in NAMES if n not in sc.all()]
+            if hidden and r < 0.12:
+                # a name that is not visible here (never declared, or declared in a block that has ended) expands to nothing
+                v = self.rng.choice(hidden)
+                pieces.append(C("PVar", v))
+                src += "${{" + v + "}}"
+                self.features.add("interpolation-hidden")
+            elif names and r < 0.5:
                 v = self.rng.choice(names)
                 pieces.append(C("PVar", v))
                 src += "${{" + v + "}}"
@@ -278,7 +286,8 @@ class Gen:
         if r < 0.58 and strs_w:
             v = rng.choice(strs_w)
             if rng.random() < 0.4:
-                e, s = self.str_lit(sc)
+                # inside a loop a string is not rebuilt from strings (s = "${{s}}${{s}}" doubles per pass): sizes stay linear
+                e, s = self.str_lit(sc, no_strs=self.loop_depth > 0 or self.in_func is not None)
                 self.features.add("assign-string")
                 return [C("SSet", v, None, e)], [f"{v} = {s}"]
             if self.loop_depth > 1 or v in self.iterating:
